@@ -500,6 +500,25 @@ for _pid in ("C01", "C02", "C03", "C04", "C05", "C06", "C07", "C08", "C10", "C13
     REGISTRY[_pid] = dict(run=sim_runner(), footprint_doc="fields %s, phases %s" % FOOTPRINT[_pid])
 REGISTRY["C13"]["run"] = run_c13_full
 
+
+def with_statefn(inner, fns, quick, thorough):
+    """append the state-function stream (decision functions on real, partly scrambled mid-run states)"""
+    def run(ctx):
+        inner(ctx)
+        import statefn
+        ev, nt = statefn.run_statefn(ctx, ctx.n(quick, thorough), fns)
+        ctx.evaluations += ev
+        ctx.traces_validated += ev
+        ctx.distinct_nontrivial += nt
+    return run
+
+
+REGISTRY["C04"]["run"] = with_statefn(REGISTRY["C04"]["run"], {"canAdd"}, 150, 6000)
+REGISTRY["C02"]["run"] = with_statefn(REGISTRY["C02"]["run"], {"contrib"}, 150, 6000)
+REGISTRY["C13"]["run"] = with_statefn(REGISTRY["C13"]["run"], {"canPut"}, 150, 6000)
+for _pid, _f in (("C04", "can_add_resources"), ("C02", "per-step contribution of perform"), ("C13", "can_put")):
+    REGISTRY[_pid]["footprint_doc"] += "; %s on real mid-run and scrambled states" % _f
+
 import purestream as _ps
 REGISTRY["C11"] = dict(run=pure_then_sim(_ps.run_c11_pure, 120, 6000), footprint_doc="sort_task/worker/facility/workplace_list (pure stream); allocate x allocation fields")
 REGISTRY["C12"] = dict(run=pure_then_sim(_ps.run_c12_pure, 300, 20000), footprint_doc="update_PERT_data (pure stream, arbitrary stale values); pert x est/eft/lst/lft/cpl in every phase")
